@@ -73,7 +73,7 @@ def gen_case(tp, tier):
               'time_yield': bool(tp.draw(2)), 'max_steps': 30000}
         return {'prog': scenario_move(tp), 'knobs': kn, 'perturb': 1,
                 'family': 0, 'scenario': 'move'}
-    feat = {'tempo_clocks': True, 'sends': tp.draw(2) == 0,
+    feat = {'tempo_clocks': True, 'sends': tp.draw(2) == 0, 'bind': True,
             'tempo_change': tp.draw(3) == 0,
             'sync': tp.draw(2) == 0, 'control': tp.draw(3) == 0,
             'draws': tp.draw(2) == 0, 'seeds': True}
